@@ -146,7 +146,9 @@ CHECKS = {
              "FieldValue <-> TransparentValue are identities on variants and payloads; Display(Type) is the GraphQL text and "
              "Type::parse(Display(t)) == t for every list depth 0..30 (both interpreted on the real bit-mask representation, "
              "async-graphql-parser's Type::new modelled from its source); the equality the round trip is judged by is numeric on "
-             "integers, also inside lists (the untagged form does not keep Int64 vs Uint64; C08 r5/r7 re-evaluated). Not decided: "
+             "integers, also inside lists (the untagged form does not keep Int64 vs Uint64; C08 r5/r7 re-evaluated); custom "
+             "deserialize_with / serialize_with hooks are inventoried (none today) and float hooks evaluated over every float "
+             "class. Not decided: "
              "serde/serde_json/ron themselves.",
         note="trusted: serde's derive semantics as seen in its expansion; std Default impls",
         technique="static analysis: facts extracted from expanded derive code in typed HIR + variant tables",
@@ -258,7 +260,9 @@ CHECKS = {
              "fields by vertex-typedness, entry points are the root query type's fields and the root type is not a vertex type; "
              "decision table of the computed EdgeParameter.default (declared default, else null if nullable, else none); the "
              "property / edge resolvers evaluated over every field-type shape (scalars, lists nested up to three levels, vertices): "
-             "every field is listed exactly once, on the right side, with its exact type.",
+             "every field is listed exactly once, on the right side, with its exact type; the implements / implementer resolvers "
+             "evaluated on an interface hierarchy (interfaces implementing interfaces): declared list, itself + every declaring "
+             "type, inverse relations.",
         note="trusted: async-graphql-parser's TypeDefinition/FieldDefinition meaning; exactness for a concrete schema is not decided beyond these clauses",
         technique="static analysis: string-dispatch table extraction vs the schema file + accessor footprint rules over typed HIR",
         design_ref="DESIGN.md section 4 C20"),
